@@ -16,11 +16,13 @@
   (ii') protocompile's COMMENT ATTRIBUTION (lexer.setPrevAndAddComments): every comment belongs to
         one significant token (or to EOF) as a leading or trailing comment: `decorate`.  The
         rewrites of (ii) on decorated tokens: `normD` (the trailing comment of a dropped separator
-        moves to the token before it; a dropped token must not carry any other comment);
+        moves to the token before it, or — when that token has a trailing comment already — in
+        front of the token after it; a dropped token must not carry any other comment);
   (iii) file-level statements (`stmts`), their five classes and the header canonicalisation as
         coded in writeFileHeader: syntax/edition, package, imports, options, rest; imports sorted
         by (decoded file name, plain > public > weak, commented first) and an import elided when
-        it follows an import of the same file and carries no comment; options sorted built-ins
+        it follows an import of the same file and carries no comment on any of its tokens;
+        options sorted built-ins
         before custom, then by printed name.  After the fix (sort.SliceStable) the sort is THE
         stable sort (`isort`); before the fix (sort.Slice) it was any sorted permutation
         (`SortedPermOf`).  `fmtModel` = (ii') ; (iii) on a whole decorated stream;
@@ -409,10 +411,34 @@ def toks (ds : List DTok) : List Token := ds.map (·.tok)
 
 /-! ### body-level rewrites on decorated tokens -/
 
-/-- the trailing comment of a dropped message-literal separator moves to the token before it
-    (formatter: setTrailingComments on the field value) -/
+/-- the comments `cs` become the first leading comments of the next token (if there is one) -/
+def giveLead (cs : List CKey) : List (DTok × Role) → Option (List (DTok × Role))
+  | (n, r) :: rest => some (({ n with lead := cs ++ n.lead }, r) :: rest)
+  | [] => none
+
+/-- the trailing comment of a dropped message-literal separator moves to the token before it —
+    the last token of the field value — when that token has no trailing comment of its own
+    (formatter: writeMessageLiteralElements / setTrailingCommentsForValue); otherwise it is printed
+    on its own line below the field and so leads the token after the separator
+    (writeMessageLiteralElements: writeMultilineComments).  `x` = the token before the separator,
+    the argument list starts with the separator. -/
 def absorb (x : DTok × Role) : List (DTok × Role) → List (DTok × Role)
-  | (s, .dropSep) :: rest => ({ x.1 with trail := x.1.trail ++ s.trail }, x.2) :: ({ s with trail := [] }, .dropSep) :: rest
+  | (s, .dropSep) :: rest =>
+    if x.1.trail.isEmpty then
+      ({ x.1 with trail := s.trail }, x.2) :: ({ s with trail := [] }, .dropSep) :: rest
+    else
+      match giveLead s.trail rest with
+      | some rest' => x :: ({ s with trail := [] }, .dropSep) :: rest'
+      | none => x :: (s, .dropSep) :: rest
+  | acc => x :: acc
+
+/-- the rule of the code BEFORE the repair (recorded finding
+    `comment-dropped:trailing-comment-on-message-literal-separator-whose-value-has-one`): the
+    separator's trailing comment was moved only to a value without a trailing comment, otherwise
+    it was lost — `absorbOld` simply forgets it. -/
+def absorbOld (x : DTok × Role) : List (DTok × Role) → List (DTok × Role)
+  | (s, .dropSep) :: rest =>
+    ({ x.1 with trail := if x.1.trail.isEmpty then s.trail else x.1.trail }, x.2) :: ({ s with trail := [] }, .dropSep) :: rest
   | acc => x :: acc
 
 def moveSepTrail (l : List (DTok × Role)) : List (DTok × Role) := l.foldr absorb []
@@ -573,14 +599,20 @@ def importOrder (s : Stmt) : Nat :=
 
 def DTok.hasComment (t : DTok) : Bool := !t.lead.isEmpty || !t.trail.isEmpty
 
-/-- importHasComment: comments on the keyword, the modifier, the semicolon, before the first or
-    after the last part of the name — NOT between the parts of a concatenated name. -/
-def importHasComment (s : Stmt) : Bool :=
+/-- importHasComment BEFORE the repair (recorded finding
+    `comment-dropped:comment-inside-concatenated-string`): comments on the keyword, the modifier,
+    the semicolon, before the first or after the last part of the name — NOT between the parts of
+    a concatenated name. -/
+def importHasCommentOld (s : Stmt) : Bool :=
   let strs := strToks s
   let others := s.filter (·.tok.kind ≠ .str)
   others.any DTok.hasComment ||
     (match strs.head? with | some t => !t.lead.isEmpty | none => false) ||
     (match strs.getLast? with | some t => !t.trail.isEmpty | none => false)
+
+/-- importHasComment (repaired): a comment on ANY token of the statement, the parts of a
+    concatenated file name included. -/
+def importHasComment (s : Stmt) : Bool := s.any DTok.hasComment
 
 /-- sort key: (name, public > plain > weak as coded: larger order first, commented first) -/
 def importKey (s : Stmt) : List Nat :=
